@@ -1,12 +1,12 @@
 package props
 
 import (
-	"go/constant"
-	"strconv"
-	"sort"
 	"fmt"
+	"go/constant"
 	"go/token"
 	"go/types"
+	"sort"
+	"strconv"
 	"strings"
 
 	"golang.org/x/tools/go/ssa"
@@ -371,9 +371,10 @@ func nodesMatching(g *paths.Graph, m func(paths.Node) bool) []paths.Node {
 func (c *Ctx) witness(g *paths.Graph, path []paths.Node) []string { return g.Describe(path) }
 
 // guardContract checks that the call matched by m, looked for after `from`,
-//   (1) lies on every path from `from` to exit once all `required` and `allowed`
-//       guards are assumed to hold, and
-//   (2) is unreachable from `from` when any single `required` guard is assumed not to hold.
+//
+//	(1) lies on every path from `from` to exit once all `required` and `allowed`
+//	    guards are assumed to hold, and
+//	(2) is unreachable from `from` when any single `required` guard is assumed not to hold.
 func (c *Ctx) guardContract(rule, construct string, g *paths.Graph, from []paths.Node, m CallM, required, allowed Assume) {
 	all := Assume{}
 	for k, v := range required {
